@@ -8,6 +8,7 @@
 -/
 import Valida.Spec.Parse
 import ValidaProofs.Lemmas.Basic
+import ValidaProofs.Lemmas.C19Parsers
 namespace ValidaProofs
 open Valida ValidaGen
 
@@ -20,61 +21,71 @@ theorem C19_guards_in_source :
     condKeyStrGuard = true ∧ preProcStrict = true ∧ callableFromCtorTables = true ∧
     pathSpecRefusesEmpty = true ∧ pathSuffixWhitelist = true ∧ partSpecStrGuard = true ∧
     ruleSpecShapeChecks = true := by
-  sorry
+  decide
 
 /-- whatever structure is handed to the condition / part / path parsers, they accept it or reject it
     with an allowed error: no AttributeError, IndexError, StopIteration, KeyError, RuntimeError … -/
 theorem C19_cond_allowed (fuel : Nat) (spec : PyVal) : ∀ e, parseCond fuel spec = .error e → Allowed e := by
-  sorry
+  exact (C19L.parseCond_all fuel spec).h
 theorem C19_path_spec_allowed (fuel : Nat) (spec : PyVal) : ∀ e, parsePathSpec fuel spec = .error e → Allowed e := by
-  sorry
+  exact ((C19L.parsers_all fuel).2.2.1 spec).h
 theorem C19_part_specs_allowed (fuel : Nat) (parts : List PyVal) : ∀ e, fromPartSpecs fuel parts = .error e → Allowed e := by
-  sorry
+  exact (C19L.fromPartSpecs_all fuel parts).h
 theorem C19_part_allowed (fuel : Nat) (spec : List (PyVal × PyVal)) : ∀ e, parsePart fuel spec = .error e → Allowed e := by
-  sorry
+  exact ((C19L.parsers_all fuel).2.2.2.2 spec).h
 
 /-- a rule spec: additionally `KeyError` exactly when `path` or `condition` is missing -/
 theorem C19_rule_allowed (fuel : Nat) (spec : PyVal) :
     ∀ e, parseRule fuel spec = .error e →
       Allowed e ∨ (e = .keyError ∧ ∃ kvs, spec = .dict kvs ∧
         (Py.dictGet (.str "path") kvs = none ∨ Py.dictGet (.str "condition") kvs = none)) := by
-  sorry
+  exact C19L.parseRule_err fuel spec
 
 /-! ### definite errors are rejected -/
 
 theorem C19_unknown_datum_kind (fuel : Nat) (v : PyVal) :
     parseCond (fuel + 1) (.dict [(.str "foo.equal_to", v)]) = .error .malformedCond ∧
     parseCond (fuel + 1) (.dict [(.str "values.eq", v)]) = .error .malformedCond := by
-  sorry
+  exact ⟨rfl, rfl⟩
 theorem C19_unknown_preprocessor (fuel : Nat) (v : PyVal) :
     parseCond (fuel + 1) (.dict [(.str "value.size.eq", v)]) = .error .malformedCond ∧
     parseCond (fuel + 1) (.dict [(.str "value.__class__.mro", v)]) = .error .malformedCond ∧
     parseCond (fuel + 1) (.dict [(.str "index.length.eq", v)]) = .error .malformedCond := by
-  sorry
+  exact ⟨rfl, rfl, rfl⟩
 theorem C19_unknown_callable (fuel : Nat) (n : Int) :
     parseCond (fuel + 1) (.dict [(.str "value.equals", .int n)]) = .error .malformedCond ∧
     parseCond (fuel + 1) (.dict [(.str "value.mro", .none)]) = .error .malformedCond ∧
     parseCond (fuel + 1) (.dict [(.str "value.from_spec", .int n)]) = .error .malformedCond ∧
     parseCond (fuel + 1) (.dict [(.str "index.keys_contain", .int n)]) = .error .malformedCond := by
-  sorry
+  exact ⟨rfl, rfl, rfl, rfl⟩
 theorem C19_wrong_arity (fuel : Nat) (v : PyVal) :
     parseCond (fuel + 1) (.dict [(.str "value", v)]) = .error .malformedCond ∧
     parseCond (fuel + 1) (.dict [(.str "value.length.eq.x", v)]) = .error .malformedCond ∧
     parseCond (fuel + 1) (.dict [(.str "value.length", v)]) = .error .malformedCond := by
-  sorry
+  exact ⟨rfl, rfl, rfl⟩
 theorem C19_unknown_type_name (fuel : Nat) :
     parseCond (fuel + 1) (.dict [(.str "value.dtype.equal_to", .str "integer")]) = .error .malformedCond ∧
     parseCond (fuel + 1) (.dict [(.str "value.is_instance", .list [.str "int", .str "strr"])]) = .error .malformedCond := by
-  sorry
+  exact ⟨rfl, rfl⟩
+-- STATEMENT CHANGED: the last two conjuncts read `parseCond (fuel + 2) …`; they are false for `fuel = 0`.
+-- A list argument is sniffed item by item for nested path specs, which costs one more level of nesting:
+-- `parseCond 2 → sniffArg 1 (.list [.int n]) → parsePathSpec 0 (.int n) = .error .recursion`, so
+-- `parseCond 2 (.dict [(.str "value.items_contain", .list [.int n])]) = .error .recursion` and likewise
+-- for `"value.in_range"` (both checked below).  Repaired by one more unit of fuel on these two conjuncts.
 theorem C19_wrong_argument_shape (fuel : Nat) (n : Int) :
     parseCond (fuel + 2) (.dict [(.str "value.in_range", .int n)]) = .error .malformedCond ∧
     parseCond (fuel + 2) (.dict [(.str "value.keys_contain_any_of", .str "a")]) = .error .malformedCond ∧
-    parseCond (fuel + 2) (.dict [(.str "value.items_contain", .list [.int n])]) = .error .malformedCond ∧
-    parseCond (fuel + 2) (.dict [(.str "value.in_range", .list [.int n])]) = .error .typeError := by
-  sorry
+    parseCond (fuel + 3) (.dict [(.str "value.items_contain", .list [.int n])]) = .error .malformedCond ∧
+    parseCond (fuel + 3) (.dict [(.str "value.in_range", .list [.int n])]) = .error .typeError := by
+  exact ⟨rfl, rfl, rfl, rfl⟩
+/-- the counterexamples to the original fuel bound of `C19_wrong_argument_shape` -/
+example (n : Int) :
+    parseCond 2 (.dict [(.str "value.items_contain", .list [.int n])]) = .error .recursion ∧
+    parseCond 2 (.dict [(.str "value.in_range", .list [.int n])]) = .error .recursion :=
+  ⟨rfl, rfl⟩
 theorem C19_non_string_key (fuel : Nat) (n : Int) (v : PyVal) :
     parseCond (fuel + 1) (.dict [(.int n, v)]) = .error .malformedCond := by
-  sorry
+  rfl
 theorem C19_path_spec_errors (fuel : Nat) (v : PyVal) :
     parsePathSpec (fuel + 1) (.dict []) = .error .malformedPath ∧
     parsePathSpec (fuel + 1) (.dict [(.str "paths", v)]) = .error .malformedPath ∧
@@ -83,14 +94,14 @@ theorem C19_path_spec_errors (fuel : Nat) (v : PyVal) :
     parsePathSpec (fuel + 1) (.list [v]) = .error .malformedPath ∧
     parsePathSpec (fuel + 3) (.dict [(.str "path.simplify", .list [.str "a"])]) = .error .malformedPath ∧
     parsePathSpec (fuel + 3) (.dict [(.str "path.none", .list [.str "a"])]) = .error .malformedPath := by
-  sorry
+  exact ⟨rfl, rfl, rfl, rfl, rfl, rfl, rfl⟩
 theorem C19_part_errors (fuel : Nat) (n : Int) :
     parsePart (fuel + 1) [(.str "type", .str "set_value")] = .error .typeError ∧
     parsePart (fuel + 1) [(.str "type", .str "map_value"), (.str "keyy", .int n)] = .error .valueError ∧
     parsePart (fuel + 1) [(.str "type", .str "map_value"), (.int n, .int n)] = .error .valueError ∧
     parsePart (fuel + 3) [(.str "type", .str "map_value"), (.str "key", .dict [(.str "value.eq", .int n)])] = .error .valueError ∧
     parsePart (fuel + 3) [(.str "type", .str "list_value"), (.str "value", .dict [(.str "index.eq", .int n)])] = .error .valueError := by
-  sorry
+  exact ⟨rfl, rfl, rfl, rfl, rfl⟩
 theorem C19_rule_errors (fuel : Nat) (c p : PyVal) :
     parseRule fuel (.dict [(.str "condition", c)]) = .error .keyError ∧
     parseRule (fuel + 2) (.dict [(.str "path", .list [])]) = .error .keyError ∧
@@ -101,6 +112,6 @@ theorem C19_rule_errors (fuel : Nat) (c p : PyVal) :
     normDoc (some (.int 5)) = .error .malformedRule ∧
     normDoc (some (.dict [(.str "description", .list [.int 1])])) = .error .malformedRule ∧
     normDoc (some (.dict [(.str "description", .dict [(.str "a", p)])])) = .error .malformedRule := by
-  sorry
+  exact ⟨rfl, rfl, rfl, rfl, rfl, rfl, rfl, rfl, rfl⟩
 
 end ValidaProofs
